@@ -130,8 +130,9 @@ for _p in ("C01", "C02", "C05"):
 PROPS['C14'] = {'assumptions': ['single writer goroutine (StoreLogs/DeleteRange are issued by one thread of the schedule); any number of readers, stable-store callers and '
                  'Close callers',
                  'in-memory VFS/MetaStore emulate *os.File (read after Close fails) and BoltMetaDB (calls after Close fail)',
-                 'proved for all schedules: after_close, mutual exclusion; no-panic is proved for states satisfying the tested invariant Inv1; deadlock '
-                 'freedom, rotator exit and handle release are judged on the implementation by the sched14 oracles'],
+                 'proved for all schedules: after_close, mutual exclusion; proved for all reachable states of a single-writer system (inductive invariant '
+                 'Safe /\\ Inv1 /\\ Inv2): no panic, no deadlock, rotator exit, only results or ErrClosed, all handles released exactly once; '
+                 'ErrSealed from StoreLogs is not excluded by the proof'],
  'rule': 'every API method x 9 call windows x 5 stages of Close x 3 initial logs; writer waiting for a pending rotation x rotator stage x Close stage; random '
          'programs/schedules; distinct = distinct input lines',
  'streams': [{'n': (4500, 60000), 'name': 'sched14', 'timeout': 3000, 'vm': (25, 250), 'vm_maxlen': 400}],
@@ -140,8 +141,8 @@ PROPS['C14'] = {'assumptions': ['single writer goroutine (StoreLogs/DeleteRange 
              'release are observed (runtime.Stack, in-memory VFS accounting), not proved']}
 
 PROPS['C06'] = {'assumptions': ['single writer; base-index resets are run on the implementation only (not in the model)',
-                 'linearizability and use-after-close freedom are not proved: every read of every forced and free-running history is checked by the Go history '
-                 'checker (mirror of Readers.lin_check)'],
+                 'linearizability of every read and use-after-close freedom are proved for the model (all schedules); the Go history checker judges every '
+                 'read of every forced and free-running history of the implementation'],
  'rule': 'writer programs (append, rotation, head truncation with finalisation, tail truncation + re-append of other content, whole-log deletion) x reads x '
          'reader window x writer progress; two readers on one old state; random programs/schedules; 2 stress runs (8 readers); distinct = distinct input lines',
  'streams': [{'n': (2200, 40000), 'name': 'sched06', 'timeout': 3000, 'vm': (20, 200), 'vm_maxlen': 400}],
